@@ -151,21 +151,23 @@ CLAIMED = {
         note='Trusted: Coq kernel, translator, extraction, harness, sort-trace hook. No axioms.',
         technique='Coq proof for the symbol layer (composition of C06/C07/C08/RS weight 0, all inputs); data layer: per-case round trip on model-tied implementation runs'),
     'C03': dict(
-        category='fault_enumeration',
-        text='Theorems (Coq, axiom-free): C03_no_miscorrection -- for every size, every codeword and EVERY error pattern with at most floor(k/2) '
-             'wrong codewords per block: if the decoder reports success, the word it leaves is exactly the transmitted codeword (proof: the '
-             'Levinson-Durbin locator has at most floor(k/2) roots -- C03_locator_bound, from the loop guard and the asserted length only --, '
-             'step 4 alters one position per root, success implies codeword (C09), and the BCH bound C03_bch_bound / C03_min_distance / '
-             'C03_unique_within_radius: at most one codeword within floor(k/2) of any word; all blocks have length <= 255). C03_weight0; '
-             'C03_success_is_codeword. What is NOT a theorem is completeness: that within the radius the decoder always DOES report success '
-             '(correctness of the Levinson-Durbin recursion with singular-case step and of the Bjoerck-Pereyra solver; no formalisation exists, '
-             'out of reach here). That half is decided by fault enumeration on the implementation, tied to the Coq model of the decoder by '
-             'correspondence on the same cases: all 48 sizes, a random codeword, error patterns of weight 0..t in every block (data region, EC '
-             'region, both, first and last codeword of each block, all blocks at full weight), every single position, and the same damage as '
-             'flipped modules through DataMatrix::decode. The index-mapping defect of multi-block sizes was repaired (fix: commit).',
+        text='Theorem C03_corrects (Coq, axiom-free) -- the property itself: for every size, every codeword and EVERY received word that differs '
+             'from it in at most floor(k/2) codewords of each interleaved block, the error decoder answers Ok with exactly that codeword; '
+             'C03_block_corrects for a single interleaved block. The proof follows the algorithm: the syndromes are the power sums of the error '
+             'points; the identities (3)/(4) are invariants of the Schmidt-Fettweis Levinson-Durbin recursion (initial solve, regular step, singular '
+             'step with its jump; Proofs/LDMath.v, LDInv.v, LDTotal.v) and at its exit they pin the polynomial [w,1] to the error locator '
+             '(Proofs/ErrLoc.v: (3) bounds the order from above, the annihilated Hankel rows from below, transposed Vandermonde); the Chien search '
+             'returns exactly the inverse locators (ChienCorrect.v); the Bjoerck-Pereyra stages return the error values (BPMath.v: Newton '
+             'functionals and a telescoping product identity; BPCorrect.v); every correction lands inside the block and the corrected word has '
+             'no non-zero syndrome (RSComplete.v). Soundness on its own: C03_no_miscorrection (locator length bound, one position per root, C09, '
+             'BCH bound C03_bch_bound / C03_min_distance / C03_unique_within_radius, all blocks <= 255 codewords), C03_weight0, '
+             'C03_success_is_codeword. The model of the decoder is tied to the code by correspondence and by fault enumeration on the same '
+             'cases: all 48 sizes, error patterns of weight 0..t in every block (data region, EC region, both, first and last codeword of each '
+             'block, all blocks at full weight), every single position, patterns that drive the singular step with a jump of two, and the same '
+             'damage as flipped modules through DataMatrix::decode. The index-mapping defect of multi-block sizes was repaired (fix: commit).',
         design_ref='DESIGN.md 6/C03',
-        note='Soundness within the radius is a theorem; completeness is fault enumeration with a correspondence-tied model (hence the declared level). No axioms.',
-        technique='Coq proof of no-miscorrection within the radius (BCH bound + locator length bound + C09); completeness by fault enumeration over weights 0..t per block on all sizes'),
+        note='Trusted: Coq kernel, translator (block set-up), extraction, harness; Spec/GF256.v, Spec/RSCode.v. No axioms.',
+        technique='Coq proof of the full statement (completeness and soundness within the radius: Levinson-Durbin invariants, locator identification, Chien, Bjoerck-Pereyra, BCH bound); fault enumeration as the tie of the model to the code'),
     'C16': dict(
         text='Theorems (Coq, axiom-free), for every input, symbol list, mode set, ECI option and EVERY planner (the optimiser is a parameter of '
              'the model): C16_first_codeword -- whenever the encoder returns a stream its first codeword is 236 if and only if macros are '
